@@ -295,8 +295,11 @@ def check_stmt(stmt, q, res, want_sample=False):
         if r2 == "unsat":
             res["discharged"] += 1
         elif r2 == "unknown":
-            res["undecided"] += 1
-            res["undecided_list"].append(f"{sig}: value in finding region")
+            # inside the region of a recorded finding nothing is claimed;
+            # not being able to exhibit the finding here is not an open
+            # obligation of the property
+            res["obligations"] -= 1
+            res["region_undecided"] = res.get("region_undecided", 0) + 1
         else:
             names = [k for k, v in regions.items()
                      if z3.is_true(m2.eval(v, model_completion=True))]
